@@ -60,6 +60,10 @@ type PFCPConn struct {
 	// channel to signal PFCPNode on exit
 	done     chan<- string
 	shutdown chan struct{}
+	// shutdownOnce makes Shutdown idempotent: an association can be ended by
+	// several triggers at once (release request, read timeout, heartbeat
+	// failure, node shutdown)
+	shutdownOnce sync.Once
 
 	metrics.InstrumentPFCP
 
@@ -229,8 +233,13 @@ func (pConn *PFCPConn) Serve() {
 	}
 }
 
-// Shutdown stops connection backing PFCPConn.
+// Shutdown stops connection backing PFCPConn. Only the first call acts; a
+// concurrent caller returns once the connection is shut down.
 func (pConn *PFCPConn) Shutdown() {
+	pConn.shutdownOnce.Do(pConn.shutdownConn)
+}
+
+func (pConn *PFCPConn) shutdownConn() {
 	close(pConn.shutdown)
 
 	if pConn.hbCtxCancel != nil {
